@@ -93,6 +93,15 @@ def inputs(nmax, seed, thorough):
             out.append(("generic-scaled-up", rng.standard_normal((n, n, 4)) * 2.0 ** 20, None))
             out.append(("hermitian-scaled-up", E.herm_from_spectrum(ul[-1][1], lam) * 2.0 ** 30, [x * 2.0 ** 30 for x in lam]))
             out.append(("integer-large", rng.integers(-3000, 3001, (n, n, 4)).astype(float), None))
+        if n >= 3:
+            # block upper triangular / block diagonal: exactly zero sub-diagonal blocks (deflation and skipped reflectors)
+            h = n // 2
+            Bt = rng.standard_normal((n, n, 4))
+            Bt[h:, :h] = 0
+            out.append(("block-upper-triangular", Bt, None))
+            Bd = Bt.copy()
+            Bd[:h, h:] = 0
+            out.append(("block-diagonal", Bd, None))
         if thorough:
             out.append(("generic-scaled", rng.standard_normal((n, n, 4)) * 1e-6, None))
             out.append(("zero", np.zeros((n, n, 4)), None))
